@@ -713,7 +713,43 @@ def r12(F, rep, rid="C13-R12"):
         raise AnalysisBroken("%s: no consume-and-clear staging buffer found (the module's generated-configuration buffer expected)" % rid)
 
 
+def r13(F, rep, rid="C13-R13"):
+    rep.rule(rid, "an object leaves a registry by identity: every single-element erase() on a container of raw pointers is "
+                  "guarded by an equality test between two pointer values (the element and `this` or a pointer parameter), "
+                  "as every such site of the library is today -- a match on a property of the object (its name) removes "
+                  "another object's entry when a rejected duplicate is destroyed")
+    from .rules_c03 import all_guards
+    n = 0
+    for f in sorted(F.funcs.values(), key=lambda g: g.q):
+        if "/src/" not in f.file or f.body is None or not f.cfg.ok:
+            continue
+        for c in X.calls(f):
+            if c["k"] != "CXXMemberCallExpr" or X.callee_name(c) != "erase" or len(X.call_args(c)) != 1:
+                continue
+            rc = c.get("rc") or ""
+            if not (rc.startswith("std::vector<") and rc.rstrip(">").rstrip().endswith("*")):
+                continue
+            n += 1
+            ident = False
+            for cn, pol in all_guards(f, c):
+                if not pol:
+                    continue
+                for x in f.walk(cn):
+                    if x["k"] == "BinaryOperator" and x.get("op") == "==":
+                        ts = [f.typestr(X.strip(k).get("t")) if X.strip(k).get("t") is not None else "" for k in X.kids(x)]
+                        if all(t.rstrip().endswith("*") or t.rstrip().endswith("*const") for t in ts):
+                            ident = True
+            recv = X.re_strip(X.key(X.receiver(c), f))
+            rep.add(rid, "%s|%s" % (f.q, recv), f.loc(c), "%s erases one element of `%s` (%s) %s" % (
+                f.q, recv, rc, "under a pointer-identity test" if ident else "WITHOUT a pointer-identity test on the element"), ident,
+                detail="the entry removed may belong to another object (same name, different instance): a configuration that is "
+                       "rejected for a duplicate name then damages the object defined before it", func=f.q)
+    if n < 4:
+        raise AnalysisBroken("%s: only %d single-element erase() calls on containers of raw pointers found" % (rid, n))
+
+
 def run(F, rep, tier):
+    r13(F, rep)
     r12(F, rep)
     r9(F, rep)
     r11(F, rep)
